@@ -241,6 +241,23 @@ def conc_check(ctx, module, theorems, props, what, assumptions, extra_quick=('ca
                         body = "".join("%s   # implementation: %s | model: %s\n" % (a, b, c) for a, b, c in zip(o["ops"][s0:idx + 1], o["impl"][s0:idx + 1], o["model"][s0:idx + 1]))
                         violation(ctx, "correspondence: the real extent_state word and the Lean Pin automaton disagree at `%s`: word says `%s`, model `%s`" % (op, im, mo),
                                   "# correspondence that no longer checks: pin-word differential, model Feox.Conc.Pin (theorems Feox.C08.*)\n" + body, no_input=(nfail == 0))
+        if "C20" in props:
+            for idx, (op, im, mo) in enumerate(zip(o["ops"], o["impl"], o["model"])):
+                if not op.startswith("ifl "):
+                    continue
+                distinct.add(hashlib.sha1((op + mo).encode()).digest())
+                if im != mo:
+                    diffs += 1
+                    if reported < 3:
+                        reported += 1
+                        s0 = idx
+                        while s0 > 0 and o["ops"][s0] != "ifl new":
+                            s0 -= 1
+                        body = "".join("%s   # implementation: %s | model: %s\n" % (a, b, c) for a, b, c in zip(o["ops"][s0:idx + 1], o["impl"][s0:idx + 1], o["model"][s0:idx + 1]))
+                        leak = op == "ifl drop" and any(x == "1" and y == "0" for x, y in zip(im[3:], mo[3:]))
+                        violation(ctx, ("the real InFlightBuffers released a buffer the model says the kernel may still hold" if leak else
+                                        "correspondence: the real InFlightBuffers and the Lean model disagree") + " at `%s`: implementation `%s`, model `%s`" % (op, im, mo),
+                                  "# model Feox.Conc.InFlight (theorems Feox.C20.*); call sequence:\n" + body, no_input=not leak)
         if "C07" not in props:
             continue
         bad_cases = set()
@@ -285,6 +302,7 @@ def conc_check(ctx, module, theorems, props, what, assumptions, extra_quick=('ca
         "rule": rule or "2-4 worker threads run programs of 1-3 calls (get, insert/insert_bytes, delete, compare-and-swap, increment, insert-if-absent, JSON patch; automatic, zero and explicit timestamps around the pinned wall clock) on one or two keys of the real store (memory-only, persistent, persistent+cache; background flusher running); a controller parks every worker at each scheduling point (hook) and a seeded random scheduler picks who goes on; the Lean system replays the same choices and must give the same at/return answer, response, published timestamp and version-clock value on every line; case families: mixed, counters, JSON documents, raw values with explicit timestamps. Distinct = SHA-1 of (operation, answer).",
         "cases": cases, "lean_lines": lines, "kind_histogram": kinds, "model_outcome_kinds": hows,
         "implementation_failures": nfail, "lean_differences": diffs, "non_linearizable_histories": nonlin,
+        "asan_processes": getattr(ctx, "asan_runs", 0),
     })
     return finish(ctx, "proof", cov, assumptions)
 
